@@ -62,8 +62,17 @@ def _extra_entry(evs):
     return None
 
 
+def _mc(run):
+    from vlib import Inconclusive
+    run.tlc_mc("MetaStackMC", "MetaStackMC.cfg", label="alg/metadata-only replay logic: forwarded = projection (each once, in order), ids = STAT positions; all closed trees over six paths x all selectors")
+    for cfg, inv in (("MetaStackMC_pinnedId.cfg", "IdsAreStatPositions"), ("MetaStackMC_pinnedFwd.cfg", "ForwardedIsProjection")):
+        r = run.tlc_mc("MetaStackMC", cfg, label="sanity: pinned-tree defect must be rejected (%s)" % inv, expect_error=True)
+        if inv + " is violated" not in r["out"]:
+            raise Inconclusive("MetaStackMC sanity configuration %s was not rejected: the model is vacuous" % cfg)
+
+
 def check(run):
-    return syncfam.run_family(run, "C19", "sync", PFX, extra=["-what", "meta"], name="sync-meta", text=_text, assumptions=ASSUME, selftests=[
+    return syncfam.run_family(run, "C19", "sync", PFX, mc=_mc, extra=["-what", "meta"], name="sync-meta", text=_text, assumptions=ASSUME, selftests=[
         ("drop the first record of a decoded listing", _drop_record),
         ("swap the first two records of a decoded listing", _swap_records),
         ("add an unselected entry to the destination snapshot", _extra_entry)])
